@@ -22,7 +22,7 @@ for d in sorted(os.listdir(os.path.join(V, "seeded"))):
 tab = ("Each change was produced by an independent sub-agent that saw only the text of one property and a scratch worktree; each compiles, passes the 38 tests,\n"
        "and comes with a demonstration (`seeded/<id>/demo.rs`) that fails with the patch and passes without it (`tools/confirm_seed.py`). The last column is the\n"
        "outcome of running every claimed check (quick tier) on a scratch worktree with the patch applied (`tools/run_seeds.py`, one consistent snapshot of /verif); the first\n"
-       "violated obligation is quoted. 49 of 56 were reported in that run (S45 only incidentally, see its row), S54 and S50 since the slow-path decision rule and the hi64 class rule were added afterwards; S30, S34, S37, S53, S56 are missed (numerical decisions, reasons in the table). Reports by checks other than the one\n"
+       "violated obligation is quoted. Of S01–S56, 49 were reported in that run (S45 only incidentally, see its row), S54 and S50 since the slow-path decision rule and the hi64 class rule were added afterwards; S30, S34, S37, S53, S56 are missed. S57–S64 (a last batch, run separately): 4 reported, S57 since `try_fast_path` joined the wrap-free callers, S62–S64 missed. All misses are numerical decisions (reasons in the table). Reports by checks other than the one\n"
        "the seed targets are mostly fail-closed side effects (an API the summaries do not know, a changed audited key) and say nothing about that other property.\n\n"
        "| seed | property it breaks | change | needs, to manifest | detected by |\n|---|---|---|---|---|\n" + "\n".join(rows) + "\n")
 p = os.path.join(V, "DESIGN.md")
